@@ -17,7 +17,7 @@
    helper), the exact message sequence of the helper plan, the wait (a task step before the release is impossible:
    OBad 7; the release enables it), and the replay after `rewindable <was>` (C04). *)
 From Coq Require Import List.
-From BV Require Import Engine.RE Engine.REInst Proofs.RE_Ctl Proofs.RE_Replay Proofs.RE_Susp Proofs.RE_Hold Proofs.RE_CtlExamples.
+From BV Require Import Engine.RE Engine.REInst Proofs.RE_Ctl Proofs.RE_Replay Proofs.RE_Susp Proofs.RE_Hold Proofs.RE_Wake Proofs.RE_CtlExamples.
 Import ListNotations.
 
 (* request accepted + top of the loop: the engine reaches `_start_suspender` without touching the plan *)
@@ -84,6 +84,19 @@ Theorem C11_start_suspender_stops_movers :
       (cr = Done (RVal VNone) -> o = oi ++ map (fun d => ODev d MStop) (moved P D s) ++ o3).
 Proof. exact start_suspender_stops_movers. Qed.
 Print Assumptions C11_start_suspender_stops_movers.
+
+(* "all without returning control to the caller": whatever a step of the `_run` task does (serving a suspension
+   included), the blocking event that wakes RE()/resume() is left alone unless the engine becomes paused or the task
+   ends in that step; a request (pause, abort, stop, halt, release, status) never touches it -- for the suspension
+   request see C11_suspension_reaches_wait *)
+Theorem C11_caller_not_woken :
+  forall (P : Type) (presume : P -> input -> outcome P) (plan_of : nat -> P) (D : Type) (dev : D -> nat -> devmeth -> D * devres)
+         (s s' : st P D) (o : list obs),
+    task_step P presume plan_of D dev s = (s', o) ->
+    blocking P D s' = blocking P D s \/
+    exists x, In x o /\ match x with OState _ Paused | OTask WReturn | OTask (WRaise _) => True | _ => False end.
+Proof. exact task_step_wakes. Qed.
+Print Assumptions C11_caller_not_woken.
 
 (* the whole property, outside the two finding classes, on schedules the real engine can produce (no OBad) -- not proved *)
 Definition C11_full : Prop :=
